@@ -298,6 +298,27 @@ pub fn run(g: &mut Global) {
     let tier = g.tier;
     g.random("random", g.tier.pick(40000, 300000), &move || strategy(tier), &check);
     g.random("long", g.tier.pick(64, 800), &long_strategy, &check);
+    // sleep and wake: a long run of identical bars (ATR and the other averages of movement decay through the
+    // subnormal range to zero), then activity again
+    let seed = g.seed;
+    let swk: Vec<(Kind, usize, bool)> = vec![(Kind::Ema, 3, true), (Kind::Atr, 2, false), (Kind::Atr, 3, true), (Kind::Atr, 14, false), (Kind::Kc, 3, false), (Kind::Kc, 14, true), (Kind::Ce, 3, false), (Kind::Ce, 14, false), (Kind::Macd, 3, true), (Kind::Tr, 1, false)];
+    let nsw = swk.len() as u64;
+    g.exhaustive(
+        "sleep_wake",
+        nsw * 8,
+        &move |i| {
+            let (kind, n, scalar) = swk[(i % nsw) as usize];
+            let flat = crate::hist::SLEEP_LENS[(i / nsw) as usize % 8];
+            let bars = crate::hist::sleep_wake_bars(seed ^ i.wrapping_mul(0x9E3779B97F4A7C15), flat, [100.0, 0.37, 1e4][(i % 3) as usize]);
+            let cfg = crate::hist::cfg_small(kind, n);
+            if scalar && kind.scalar() {
+                Case { cfg, scalar: true, xs: bars.iter().map(|b| X(b.c)).collect(), bars: vec![] }
+            } else {
+                Case { cfg, scalar: false, xs: vec![], bars }
+            }
+        },
+        &check,
+    );
     // ultra-long single-instance streams: beyond 2^16 inputs for every configuration, beyond 2^24 for a few
     let lc: Vec<(Cfg, bool)> = vec![
         (Cfg { kind: Kind::Ema, p: vec![3], m: X(0.0) }, true),
@@ -312,7 +333,6 @@ pub fn run(g: &mut Global) {
         (Cfg { kind: Kind::Ce, p: vec![5], m: X(2.0) }, false),
         (Cfg { kind: Kind::Tr, p: vec![], m: X(0.0) }, false),
     ];
-    let seed = g.seed;
     let nl = lc.len() as u64;
     let l16 = g.tier.pick(70_000usize, 300_000usize);
     let lc1 = lc.clone();
